@@ -50,7 +50,7 @@ def pregen(check):
 
 CFG = {
     "id": "C03",
-    "lean_modules": ["GeomV.C03.Proofs", "GeomV.C03.ProofsScale", "GeomV.C03.ProofsMScale", "GeomV.C03.ProofsTouch", "GeomV.C03.ProofsOrder", "GeomV.C03.ProofsSpecScale", "GeomV.C03.ProofsOpArea", "GeomV.C03.ProofsBBox", "GeomV.C03.ProofsAffine", "GeomV.C03.ProofsOp"],
+    "lean_modules": ["GeomV.C03.Proofs", "GeomV.C03.ProofsScale", "GeomV.C03.ProofsMScale", "GeomV.C03.ProofsTouch", "GeomV.C03.ProofsOrder", "GeomV.C03.ProofsSpecScale", "GeomV.C03.ProofsOpArea", "GeomV.C03.ProofsBBox", "GeomV.C03.ProofsAffine", "GeomV.C03.ProofsJudge", "GeomV.C03.ProofsOp"],
     "exe": "geomv_c03",
     "go_cmd": "c03",
     "stages": ["go:gen", "go:impl", "lean:judge"],
@@ -70,7 +70,7 @@ CFG = {
         "C03_area_order", "C03_area_anyorder", "C03_area_holefirst", "C03_mcentroid_anyorder", "C03_centroid_order", "C03_centroid_valid_anyorder",
         "sideRings_scale", "C03_validPoly_scale", "C03_validPolyT_scale", "C03_validAny_scale", "C03_specArea_scale", "C03_validPoly_mul", "C03_validPolyT_mul", "C03_shellIndex_scale", "C03_opArea", "C03_opMArea",
         "C03_centroid_bbox_star", "C03_mcentroid_bbox_partial",
-        "C03_spec_affine_measure", "C03_spec_affine_ringCentroid", "C03_spec_affine_area", "C03_spec_affine_centroid", "C03_spec_affine_mcentroid", "C03_bounds_area", "C03_bounds_centroid",
+        "C03_spec_affine_measure", "C03_spec_affine_ringCentroid", "C03_spec_affine_area", "C03_spec_affine_centroid", "C03_spec_affine_mcentroid", "C03_bounds_area", "C03_bounds_centroid", "C03_judge_scaleInt", "C03_judge_scaleInt_members",
         "C03_op_isLeft", "C03_op_reversePolygon", "C03_op_floatEquals_zero", "C03_op_fix_rings", "C03_op_fix_rings_multi",
         "C03_op_FixOrientation_rings", "C03_op_fix_measure", "C03_op_fix_area", "C03_op_fix_ringsKept",
         "C03_op_pointInPoly_grid_exact", "C03_op_pointInPolyExact_crossing", "C03_op_pointInPoly_grid_sideRing",
